@@ -98,6 +98,9 @@ func (i *UnixStamp) UnmarshalJSON(b []byte) error {
 	if lb <= 2 {
 		return ErrInvalidInt64Js
 	}
+	if b[0] != '"' || b[lb-1] != '"' {
+		return ErrInvalidInt64Js
+	}
 
 	strBuf := string(b[1 : lb-1])
 	t, err := strconv.Atoi(strBuf)
